@@ -10,6 +10,7 @@ import (
 	"encoding/hex"
 	"errors"
 	"reflect"
+	"runtime"
 	"strings"
 	"time"
 	"unicode"
@@ -98,6 +99,23 @@ func (a *TextArr) UnmarshalText(b []byte) error {
 	return err
 }
 
+// TextLong keeps the text as it is (id / token like arguments, possibly
+// long). It copies the text, as the encoding.TextUnmarshaler contract asks,
+// in two steps with a scheduling point in between: a parser can be
+// descheduled half-way on any machine.
+type TextLong struct {
+	S string
+}
+
+func (t *TextLong) UnmarshalText(b []byte) error {
+	n := len(b) / 2
+	head := string(b[:n])
+	runtime.Gosched()
+	t.S = head + string(b[n:])
+	return nil
+}
+
+var _ encoding.TextUnmarshaler = (*TextLong)(nil)
 var _ encoding.TextUnmarshaler = (*TextPair)(nil)
 var _ encoding.TextUnmarshaler = (*TextArr)(nil)
 
@@ -177,7 +195,7 @@ var (
 		reflect.TypeOf(MyFloat64(0)), reflect.TypeOf(MyString("")),
 	}
 	enumTypes   = []reflect.Type{reflect.TypeOf(Color(0)), reflect.TypeOf(Mode("")), reflect.TypeOf(Level(0))}
-	textTypes   = []reflect.Type{reflect.TypeOf(TextPair{}), reflect.TypeOf(TextArr{})}
+	textTypes   = []reflect.Type{reflect.TypeOf(TextPair{}), reflect.TypeOf(TextArr{}), reflect.TypeOf(TextLong{})}
 	structTypes = []reflect.Type{
 		reflect.TypeOf(InA{}), reflect.TypeOf(InB{}), reflect.TypeOf(InC{}), reflect.TypeOf(InD{}),
 		reflect.TypeOf(InRec{}), reflect.TypeOf(InOpt{}), reflect.TypeOf(InS{}),
